@@ -36,6 +36,7 @@ func (s *Server) patchHandlerFunc(w http.ResponseWriter, r *http.Request) {
 	if publishTime == "" {
 		slog.Warn("publishTime query is required, but not provided in patch request")
 		http.Error(w, "publishTime query is required", http.StatusBadRequest)
+		return
 	}
 	old := &rec{}
 	oldQuery := removeQuery(origQuery, "nowMS")
@@ -44,11 +45,19 @@ func (s *Server) patchHandlerFunc(w http.ResponseWriter, r *http.Request) {
 	r.URL.Path = mpdPath
 	r.URL.RawQuery = oldQuery
 	s.livesimHandlerFunc(old, r)
+	if old.status >= 400 {
+		http.Error(w, string(old.body), old.status)
+		return
+	}
 
 	new := &rec{}
 	newQuery := removeQuery(origQuery, "publishTime")
 	r.URL.RawQuery = newQuery
 	s.livesimHandlerFunc(new, r)
+	if new.status >= 400 {
+		http.Error(w, string(new.body), new.status)
+		return
+	}
 
 	doc, expiration, err := patch.MPDDiff(old.body, new.body)
 	switch {
